@@ -98,6 +98,66 @@ fn rogue_side(end: pipe::End, dialer: bool, pv: &str, conc: usize, keys: &Keys, 
     .boxed()
 }
 
+/// State of one history (a sequence of handshakes against the same victim process): the honest
+/// peer H keeps its static DH key for all its sessions, like rust-libp2p / go-libp2p do, so its
+/// identity payload is the same bytes every time and can be observed by anybody who dials it.
+struct HistCtx {
+    h_static: [u8; 32],
+    /// H's identity payload as observed by a third party
+    h_payload: Vec<u8>,
+    /// H as a libp2p-noise endpoint (the Config owns the static key)
+    lp_cfg: Option<libp2p_noise::Config>,
+}
+
+fn snow_side(end: pipe::End, dialer: bool, spec: rogue::Spec, seed: u64) -> Fut {
+    async move {
+        let mut end = end;
+        match rogue::handshake_snow(&mut end, dialer, spec, seed).await {
+            Ok(_) => Outcome { ok: true, peer: vec![], kind: "snow-done".into() },
+            Err(e) => Outcome { ok: false, peer: vec![], kind: e },
+        }
+    }
+    .boxed()
+}
+
+fn libp2p_cfg_side(end: pipe::End, cfg: libp2p_noise::Config, dialer: bool) -> Fut {
+    async move {
+        let r = if dialer { cfg.upgrade_outbound(end, "/noise").await } else { cfg.upgrade_inbound(end, "/noise").await };
+        match r {
+            Ok((peer, _out)) => Outcome { ok: true, peer: peer.to_bytes(), kind: String::new() },
+            Err(e) => Outcome { ok: false, peer: vec![], kind: format!("{e:?}") },
+        }
+    }
+    .boxed()
+}
+
+/// flip one bit inside the identity_sig field (protobuf field 2) of an identity payload
+fn corrupt_sig(payload: &[u8], rng: &mut StdRng) -> Vec<u8> {
+    let mut p = payload.to_vec();
+    let mut i = 0;
+    while i + 2 <= p.len() {
+        let (tag, len) = (p[i], p[i + 1] as usize); // all lengths here are < 128
+        if tag == 0x12 && len > 0 {
+            let o = i + 2 + rng.gen_range(0..len.min(p.len() - i - 2));
+            p[o] ^= 1 << rng.gen_range(0..8);
+            return p;
+        }
+        i += 2 + len;
+    }
+    panic!("identity payload without signature field");
+}
+
+/// the spec of the snow-based peer for a history step: honest H (fixed static key) or a rogue
+/// that replays H's payload inside its own session
+fn hist_peer_spec(sc: &Value, h: &Keypair, hctx: &HistCtx, rng: &mut StdRng) -> rogue::Spec {
+    match (sc["peer"].as_str().unwrap(), sc["pv"].as_str().unwrap()) {
+        ("honest", _) => rogue::Spec { static_priv: Some(hctx.h_static), pl: rogue::Pl::HonestFor(dalek(h)) },
+        (_, "replayH") => rogue::Spec { static_priv: None, pl: rogue::Pl::Fixed(hctx.h_payload.clone()) },
+        (_, "replayHBadSig") => rogue::Spec { static_priv: None, pl: rogue::Pl::Fixed(corrupt_sig(&hctx.h_payload, rng)) },
+        other => panic!("no snow peer for {other:?}"),
+    }
+}
+
 /// Poll both sides by hand until both finished. Deadlocks (both sides waiting for bytes that will
 /// never come because of the MITM move) are resolved by closing the pipe, never by a timer.
 fn drive(mut fd: Fut, mut fl: Fut, sh: &Arc<Mutex<pipe::Shared>>) -> (Outcome, Outcome, bool) {
@@ -173,7 +233,12 @@ struct Lens {
 /// One concrete execution. Returns (dialer outcome, listener outcome, hang, move applied, observed lens)
 #[allow(clippy::too_many_arguments)]
 fn execute(sc: &Value, mv: Move, conc: usize, keys: &Keys, rt: &tokio::runtime::Runtime, seed: u64) -> (Outcome, Outcome, bool, bool, Lens) {
+    execute_h(sc, mv, conc, keys, rt, seed, None)
+}
+
+fn execute_h(sc: &Value, mv: Move, conc: usize, keys: &Keys, rt: &tokio::runtime::Runtime, seed: u64, hctx: Option<&HistCtx>) -> (Outcome, Outcome, bool, bool, Lens) {
     let _g = rt.enter();
+    let mut hrng = StdRng::seed_from_u64(seed ^ 0x5eed);
     let chunk = sc["chunk"].as_str().unwrap();
     let (ed, el, sh) = pair(mv, chunk, StdRng::seed_from_u64(seed));
     let peer = sc["peer"].as_str().unwrap();
@@ -181,6 +246,15 @@ fn execute(sc: &Value, mv: Move, conc: usize, keys: &Keys, rt: &tokio::runtime::
     let trole = sc["trole"].as_str().unwrap();
     let pv = sc["pv"].as_str().unwrap();
     let (fd, fl): (Fut, Fut) = match (peer, trole) {
+        // history steps: the victim is the real handshake, the peer is H (fixed static key) or a replaying rogue
+        ("honest", "dialer") if imp == "libp2pfixed" =>
+            (litep2p_side(ed, keys.a.clone(), Role::Dialer), libp2p_cfg_side(el, hctx.unwrap().lp_cfg.clone().unwrap(), false)),
+        ("honest", "listener") if imp == "libp2pfixed" =>
+            (libp2p_cfg_side(ed, hctx.unwrap().lp_cfg.clone().unwrap(), true), litep2p_side(el, keys.b.clone(), Role::Listener)),
+        (_, "dialer") if imp == "snowfixed" || pv.starts_with("replayH") =>
+            (litep2p_side(ed, keys.a.clone(), Role::Dialer), snow_side(el, false, hist_peer_spec(sc, &keys.b, hctx.unwrap(), &mut hrng), seed)),
+        (_, "listener") if imp == "snowfixed" || pv.starts_with("replayH") =>
+            (snow_side(ed, true, hist_peer_spec(sc, &keys.a, hctx.unwrap(), &mut hrng), seed), litep2p_side(el, keys.b.clone(), Role::Listener)),
         ("honest", "both") => (litep2p_side(ed, keys.a.clone(), Role::Dialer), litep2p_side(el, keys.b.clone(), Role::Listener)),
         ("honest", "dialer") => (litep2p_side(ed, keys.a.clone(), Role::Dialer), libp2p_side(el, &keys.b, false)),
         ("honest", "listener") => (libp2p_side(ed, &keys.a, true), litep2p_side(el, keys.b.clone(), Role::Listener)),
@@ -384,6 +458,122 @@ fn execute_replay_aware(sc: &Value, mv: Move, conc: usize, keys: &Keys, rt: &tok
     execute(sc, mv, conc, keys, rt, seed)
 }
 
+// ------------------------------------------------------------------ histories
+
+/// One history step through the real `negotiate_connection` (TCP hook) against a snow-based peer
+/// that also speaks multistream-select and the Noise transport. None: inconclusive (stalled machine).
+async fn negotiate_step(sc: &Value, keys: &Keys, hctx: &HistCtx, seed: u64) -> Option<Outcome> {
+    use tokio_util::compat::TokioAsyncReadCompatExt;
+    let victim_dials = sc["trole"] == "dialer";
+    let (victim, h) = if victim_dials { (keys.a.clone(), &keys.b) } else { (keys.b.clone(), &keys.a) };
+    let spec = hist_peer_spec(sc, h, hctx, &mut StdRng::seed_from_u64(seed));
+    let listener = tokio::net::TcpListener::bind("127.0.0.1:0").await.ok()?;
+    let addr = listener.local_addr().ok()?;
+    let (c, s) = tokio::join!(tokio::net::TcpStream::connect(addr), listener.accept());
+    let (c, (s, from)) = (c.ok()?, s.ok()?);
+    let t = Duration::from_secs(60);
+    // a dialing victim expects H (it believes it is talking to H in every step)
+    let expected = litep2p::PeerId::from_public_key(&h.public().into());
+    let both = async {
+        if victim_dials {
+            tokio::join!(tcp_negotiate_connection(c, Some(expected), victim, Role::Dialer, addr, t), rogue::negotiate_snow(s.compat(), false, spec, seed))
+        } else {
+            tokio::join!(tcp_negotiate_connection(s, None, victim, Role::Listener, from, t), rogue::negotiate_snow(c.compat(), true, spec, seed))
+        }
+    };
+    let (rv, _peer) = tokio::time::timeout(Duration::from_secs(150), both).await.ok()?;
+    Some(match rv {
+        Ok(peer) => Outcome { ok: true, peer: peer.to_bytes(), kind: String::new() },
+        Err(NegotiationError::Timeout) => return None,
+        Err(e) => Outcome { ok: false, peer: vec![], kind: format!("{e:?}") },
+    })
+}
+
+/// Run a history: all its handshakes in this process, against the same library state, with the same
+/// identities; H keeps its static key (and therefore its payload bytes) across its sessions.
+#[allow(clippy::too_many_arguments)]
+fn run_history(idx: usize, b: &Value, thorough: bool, rng: &mut StdRng, rt: &tokio::runtime::Runtime, out: &mut Vec<String>, stats: &mut Value) {
+    let steps = b["steps"].as_array().unwrap();
+    let route = b["route"].as_str().unwrap();
+    if steps.len() == 1 && route == "mem" {
+        return run_scenario(&json!({"sc": steps[0], "exp": b["exp"][0]}), thorough, rng, rt, out, stats);
+    }
+    let fault = std::env::var("VERIF_FAULT").unwrap_or_default();
+    let trole = steps[0]["trole"].as_str().unwrap();
+    for rep in 0..if thorough { 8 } else { 2 } {
+        let keys = fresh_keys();
+        let h = if trole == "dialer" { &keys.b } else { &keys.a };
+        let mut h_static = [0u8; 32];
+        rng.fill(&mut h_static);
+        let mut hctx = HistCtx { h_static, h_payload: rogue::honest_payload(&dalek(h), &rogue::static_public(&h_static)), lp_cfg: None };
+        if steps.iter().any(|s| s["impl"] == "libp2pfixed") {
+            // H is a libp2p-noise endpoint; a third party dials it once and keeps the payload it is shown
+            let cfg = libp2p_noise::Config::new(&lp_keypair(h)).expect("libp2p noise config");
+            let _g = rt.enter();
+            let (ed, el, sh) = pair(Move::default(), "whole", StdRng::seed_from_u64(rng.gen()));
+            let seen = Arc::new(Mutex::new(None));
+            let seen2 = seen.clone();
+            let ids = rogue::Ids { rogue: dalek(&keys.r), victim: dalek(h) };
+            let spy: Fut = async move {
+                let mut ed = ed;
+                let r = rogue::handshake_snow(&mut ed, true, rogue::Spec { static_priv: None, pl: rogue::Pl::Variant("asR".into(), 0, ids) }, 7).await;
+                let ok = r.is_ok();
+                *seen2.lock().unwrap() = r.ok().map(|x| x.0);
+                Outcome { ok, peer: vec![], kind: String::new() }
+            }
+            .boxed();
+            let _ = drive(spy, libp2p_cfg_side(el, cfg.clone(), false), &sh);
+            hctx.h_payload = seen.lock().unwrap().clone().expect("payload of the libp2p-noise peer H observed");
+            hctx.lp_cfg = Some(cfg);
+        }
+        for (i, sc) in steps.iter().enumerate() {
+            let seed: u64 = rng.gen();
+            let victim_outcome = if route == "negotiate" {
+                let rt_io = tokio::runtime::Builder::new_current_thread().enable_all().build().unwrap();
+                let r = match catch(|| rt_io.block_on(negotiate_step(sc, &keys, &hctx, seed))) {
+                    Ok(r) => r,
+                    Err(p) => Some(Outcome { ok: false, peer: vec![], kind: format!("PANIC {p}") }),
+                };
+                let Some(o) = r else {
+                    stats["hist_inconclusive"] = json!(stats["hist_inconclusive"].as_u64().unwrap_or(0) + 1);
+                    break; // the rest of this history would run on a different past: start over next rep
+                };
+                o
+            } else {
+                let mv = if sc["mitm"]["msg"].as_u64().unwrap() == 0 {
+                    Move::default()
+                } else {
+                    Move { msg: sc["mitm"]["msg"].as_u64().unwrap() as usize, kind: "corrupttail".into(), off: rng.gen_range(0..16), bit: rng.gen_range(0..8), ..Default::default() }
+                };
+                let (od, ol, hang, _, _) = execute_h(sc, mv, 0, &keys, rt, seed, Some(&hctx));
+                let mut o = if trole == "dialer" { od } else { ol };
+                if hang {
+                    o.kind = "HANG".into();
+                }
+                o
+            };
+            let mut outcome = if victim_outcome.ok { "ok" } else { "err" };
+            let mut pname = if victim_outcome.ok { name_of(&victim_outcome.peer, &keys) } else { "" };
+            if victim_outcome.kind == "HANG" {
+                outcome = "hang";
+            }
+            if victim_outcome.kind.starts_with("PANIC") {
+                outcome = "panic";
+            }
+            if fault == "accept_all" && outcome == "err" {
+                outcome = "ok";
+                pname = if trole == "dialer" { "B" } else { "A" };
+            }
+            let what = if sc["peer"] == "rogue" { sc["pv"].as_str().unwrap() } else if sc["mitm"]["msg"].as_u64().unwrap() != 0 { "Hbad" } else { sc["impl"].as_str().unwrap() };
+            let k = format!("{outcome}_hist_{what}_{route}");
+            stats["outcomes"][&k] = json!(stats["outcomes"][&k].as_u64().unwrap_or(0) + 1);
+            out.push(json!({"e": "hs", "sc": sc, "conc": {"hist": idx, "step": i + 1, "of": steps.len(), "route": route, "rep": rep},
+                "role": trole, "outcome": outcome, "peer": pname, "kind": victim_outcome.kind.chars().take(80).collect::<String>(),
+                "exp": b["exp"][i][trole]}).to_string());
+        }
+    }
+}
+
 // ------------------------------------------------------------------ dialed-peer expectation over TCP
 
 async fn node(kp: Keypair, ws: bool) -> litep2p::Litep2p {
@@ -512,7 +702,9 @@ fn main() {
     let threads = args.u64("threads", 8) as usize;
     let thorough = args.get("thorough").is_some();
     let behs = args.get("behaviours").map(read_jsonl).unwrap_or_default();
-    let (mem, tcp): (Vec<Value>, Vec<Value>) = behs.into_iter().partition(|b| b["sc"]["dialed"] == "none");
+    // a behaviour is a history: {route, steps: [scenario..], exp: [{dialer, listener}..]}
+    let (mem, tcp): (Vec<Value>, Vec<Value>) = behs.into_iter().partition(|b| b["steps"][0]["dialed"] == "none");
+    let tcp: Vec<Value> = tcp.into_iter().map(|b| json!({"sc": b["steps"][0], "exp": b["exp"][0]})).collect();
     let jobs = Arc::new(Mutex::new(mem.into_iter().enumerate().rev().collect::<Vec<_>>()));
     let results = Arc::new(Mutex::new(Vec::<(usize, Vec<String>, Value)>::new()));
     let mut hs = vec![];
@@ -526,7 +718,7 @@ fn main() {
                 let Some((i, b)) = job else { break };
                 let mut lines = vec![];
                 let mut stats = json!({"outcomes": {}, "weak": {}});
-                run_scenario(&b, thorough, &mut rng, &rt, &mut lines, &mut stats);
+                run_history(i, &b, thorough, &mut rng, &rt, &mut lines, &mut stats);
                 results.lock().unwrap().push((i, lines, stats));
             }
         }));
